@@ -140,6 +140,23 @@ theorem fastEqInt_eq (a b : Int) : fastEqInt a b = decide (a = b) := by
     | none => rfl
     | some y => simp only []; rw [asLong_some a x ha, asLong_some b y hb]
 
+/-! ### the exact-str branch -/
+
+/-- the str branch of `fast_compare_lt`: `result = PyUnicode_Compare(a, b)` (−1, 0 or 1; −1 *with* an error set on failure);
+    `if (result != -1 || !PyErr_Occurred()) return result < 0`; otherwise clear the error and fall through -/
+def fastLtStr (result : Int) (errSet : Bool) (fallback : Bool) : Bool :=
+  if result ≠ -1 ∨ errSet = false then decide (result < 0) else fallback
+
+def fastEqStr (result : Int) (errSet : Bool) (fallback : Bool) : Bool :=
+  if result ≠ -1 ∨ errSet = false then decide (result = 0) else fallback
+
+/-- without an error the branch answers by the sign `PyUnicode_Compare` returned — in particular a genuine −1 ("less")
+    is not mistaken for a failure — and with an error it defers to rich comparison -/
+theorem fastLtStr_spec (result : Int) (fallback : Bool) :
+    fastLtStr result false fallback = decide (result < 0) ∧ fastEqStr result false fallback = decide (result = 0) ∧
+    fastLtStr (-1) true fallback = fallback ∧ fastEqStr (-1) true fallback = fallback := by
+  refine ⟨by simp [fastLtStr], by simp [fastEqStr], by simp [fastLtStr], by simp [fastEqStr]⟩
+
 /-- both regimes occur: a small and a huge operand -/
 example : asLong 5 = some 5 ∧ asLong (2 ^ 64) = none ∧ fastLtInt 5 (2 ^ 64) = true ∧ fastLtInt (2 ^ 64) 5 = false ∧
     fastLtInt (-1) (2 ^ 64) = true := by decide
